@@ -326,6 +326,7 @@ def run(ctx, prog, res):
     rule_r16(prog, res)
     rule_r17(ctx, prog, res)
     rule_r18(prog, res)
+    rule_r19(ctx, prog, res)
 
 
 def _or_roots(f, op, names, depth=0):
@@ -785,6 +786,34 @@ def rule_r16(prog, res):
         r16.check(got == [want], {"operator": combo[0], "kind": combo[1], "combination": got}, "C01.R16:%s/%s" % combo,
                   "a %s rule of kind %s is combined with what earlier rules gave by %s; the documented semantics say `%s` (a later normal rule replaces earlier rules on the days it applies, additional rules and closed rules overlay, fallback rules only apply on days nothing else covered)" % (combo[0].lower(), combo[1].lower(), got or "nothing", want), lib.where_of(sa))
 
+    # who lies on top: `a.addition(b)` puts b over a. Outside the fallback arm the current rule is overlaid on what the
+    # earlier rules gave (later rules win where they apply); in the fallback arm the fallback lies below what earlier
+    # rules spill over the day.
+    n_add = 0
+    for bb, t in sa.calls():
+        if not flow.call_name(t).endswith("schedule::Schedule::addition") or len(t["args"]) != 2:
+            continue
+        is_curr = [re.match(r"(?:\w+::)*rule_sequence_schedule_at\(", flow.shape(sa, a, depth=4)) is not None for a in t["args"]]
+        arms = set()
+        for path in pathterms.acyclic_paths(sa, bb, start=M):
+            ops_ok = set(opn)
+            for _, op, taken, excl in pathterms.conditions(sa, path):
+                if re.fullmatch(r"discr\(.*\.operator\)", flow.shape(sa, op, depth=3)):
+                    ops_ok &= set(taken) if taken is not None else set(opn) - set(excl or [])
+            arms |= {opn[o] for o in ops_ok}
+        n_add += 1
+        if arms == {"Fallback"}:
+            ok = is_curr == [True, False]
+            want = "the fallback below, what earlier rules spill on top: curr.addition(prev)"
+        elif "Fallback" not in arms:
+            ok = is_curr == [False, True]
+            want = "what earlier rules gave below, the current rule on top: prev.addition(curr)"
+        else:
+            ok, want = False, "an overlay shared by the fallback arm and another arm cannot have the right order for both"
+        r16.check(ok, {"addition_in_block": bb, "arms": sorted(arms), "receiver_is_current_rule": is_curr[0], "argument_is_current_rule": is_curr[1]}, "C01.R16:on-top:%s" % "+".join(sorted(arms)),
+                  "schedule_at overlays two day schedules in the arm(s) %s with the operands the wrong way round (expected %s): `a.addition(b)` lets b win wherever both cover a minute, so the spill of a later rule ends up under the earlier rules (or a fallback over them)" % (sorted(arms), want), lib.where_of(sa, t))
+    r16.check(n_add >= 3, {"additions_in_schedule_at": n_add}, "C01.R16:FLOOR:additions", "FLOOR: schedule_at has %d overlays, at least 3 were confirmed by hand" % n_add, lib.where_of(sa))
+
 
 def rule_r17(ctx, prog, res):
     r17 = res.rule("C01.R17", "impossible days are moved to the nearest real day on the stated side and real days are left alone, in every year: valid_ymd_before(y, m, d) is the last day of month m of year y that is not after day d, valid_ymd_after(y, m, d) is day d itself or else the first day of the following month. Both helpers (iterator pipelines with a closure) are extracted per path from MIR (peval) and evaluated for every month and day 1..=31 of the years 1899, 1900, 2023, 2024, 2100, 9999 and 10000 - the years around both ends of the supported range included")
@@ -840,3 +869,45 @@ def rule_r18(prog, res):
             r18.check(not yearish, {"fn": fid.split("::")[-1], "duration": "%s(%s)" % (unit, v if v is not None else "variable")}, "C01.R18:%s:%s" % (fn.module, fid.split("::")[-1].split("{")[0] or "closure"),
                       "%s builds a duration of %s %s to move a date by a year: after a Feb 29 the result is a day early (`2019 Sep 01-Jul 01` ends on 2020-06-30)" % (fid, v, unit), lib.where_of(fn, t))
     r18.floor(5)
+
+
+def rule_r19(ctx, prog, res):
+    r19 = res.rule("C01.R19", "year selectors with their steps, by value: YearRange::filter (extracted per path from MIR with the closures it calls, peval) selects year y exactly when y lies in the range - inclusive at both ends, a range written backwards wrapping over the end of time - and the distance |y - start| is a multiple of the step; evaluated for start and end years over 2000..=2012 in both orders, steps 1, 2, 3, 5, 7 (thorough: every pair of 2000..=2012, steps 1..=9), on the first and last day of every year 1990..=2025")
+    import peval
+    YRT = "opening_hours_syntax::rules::day::YearRange"
+    try:
+        filt = prog.impl_method_one("DateFilter", "filter", self_adt=YRT)
+    except Exception:
+        filt = None
+    if filt is None:
+        r19.anchor_missing("DateFilter::filter for YearRange")
+        return
+    ev = peval.Evaluator(prog, consts={"DATE_END": peval.DATE_END, "DATE_START": peval.DATE_START})
+    deep = ctx.tier == "thorough"
+    ys = list(range(2000, 2013)) if deep else [2000, 2001, 2004, 2009, 2010, 2012]
+    steps = list(range(1, 10)) if deep else [1, 2, 3, 5, 7]
+    bad = None
+    n = 0
+    seen = set()
+    try:
+        for s_ in ys:
+            for e_ in ys:
+                for k in steps:
+                    sel = {"range": ("range", s_, e_), "step": k}
+                    for y in range(1990, 2026):
+                        inr = (s_ <= y <= e_) if s_ <= e_ else (y >= s_ or y <= e_)
+                        want = inr and abs(y - s_) % k == 0
+                        for md in ((1, 1), (12, 31)):
+                            got = bool(ev.run(filt, [sel, (y,) + md, None]))
+                            n += 1
+                            seen.add((s_ <= e_, k > 1, want))
+                            if got != want and bad is None:
+                                bad = (s_, e_, k, (y,) + md, got, want)
+    except peval.Unmodelled as ex:
+        r19.fail("C01.R19:unmodelled", "YearRange::filter cannot be evaluated from its MIR any more (%s): not decided, failing closed" % ex, lib.where_of(filt))
+        return
+    r19.check(bad is None, {"fn": "YearRange::filter", "evaluations": n, "ranges": len(ys) ** 2, "steps": steps}, "C01.R19:year-filter",
+              "" if bad is None else "`%d-%d%s` on %04d-%02d-%02d: the filter says %s, the documented reading %s (in range and |year - start| a multiple of the step)" % (bad[0], bad[1], "/%d" % bad[2] if bad[2] != 1 else "", *bad[3], bad[4], bad[5]), lib.where_of(filt))
+    r19.check(len(seen) == 8, {"cases_exercised": len(seen), "of": 8}, "C01.R19:FLOOR", "FLOOR: the scope exercises %d of the 8 cases (in order / wrapping) x (step 1 / larger) x (selected / not)" % len(seen), lib.where_of(filt))
+    r19.floor(2)
+
